@@ -169,6 +169,25 @@ def build(case):
         X = docs.extension(v, M, flags=flags)
         lexs = [docs.derive(X, case['base'], case['delta'], flags=flags, base_lex=M)]
         pre = [{'lmf_version': v, 'lexicons': [M]}]
+        if 'twinext' in flags:
+            # another version of the same extension (same ids, also the ids of the forms it adds to base entries,
+            # other annotation texts) is installed first
+            import copy
+            Xt = copy.deepcopy(docs.extension(v, M, flags=tuple(f for f in flags if f != 'twinext')))
+            Xt['version'] = 'tw'
+
+            def mark(n):
+                if isinstance(n, dict):
+                    for k in ('tags', 'pronunciations'):
+                        for item in n.get(k, []):
+                            item['text'] = item['text'] + '-tw'
+                    for val in n.values():
+                        mark(val)
+                elif isinstance(n, list):
+                    for val in n:
+                        mark(val)
+            mark(Xt)
+            pre.append({'lmf_version': v, 'lexicons': [Xt]})
     else:
         raise ValueError(kind)
     return {'resource': {'lmf_version': v, 'lexicons': lexs}, 'raw_text': raw, 'pre': pre}
